@@ -15,4 +15,7 @@ inductive FrameRes (R : Type)
   | badBody (alloc : Nat)                              -- the body is not a request
   | frame (req : R) (alloc : Nat) (rest : Bytes)       -- `Ok(Some(req))`, and what is left of the input
 
+/-- `u32::to_be_bytes` -/
+def be32enc (n : Nat) : List Nat := [n / 16777216 % 256, n / 65536 % 256, n / 256 % 256, n % 256]
+
 end Copia.WireSupport
